@@ -271,6 +271,16 @@ impl Qcow2Header {
             header.refcount_order = 4;
         }
 
+        let crypt_method = header.crypt_method;
+        if crypt_method != 0 {
+            return Err(format!("qcow2 encryption method {crypt_method} is not supported").into());
+        }
+
+        let refcount_order = header.refcount_order;
+        if refcount_order > 6 {
+            return Err(format!("qcow2 refcount_order {refcount_order} is invalid").into());
+        }
+
         let cluster_bits = header.cluster_bits;
         if !(9..=30).contains(&cluster_bits) {
             return Err(format!("qcow2 cluster_bits {cluster_bits} is invalid").into());
@@ -297,6 +307,13 @@ impl Qcow2Header {
                 "qcow2 refcount table offset {reftable_offset:#x} is not cluster aligned"
             )
             .into());
+        }
+
+        let rt_clusters = header.refcount_table_clusters;
+        if rt_clusters == 0
+            || ((rt_clusters as u64) << cluster_bits) > Self::MAX_REFCOUNT_TABLE_SIZE as u64
+        {
+            return Err(format!("qcow2 refcount table clusters {rt_clusters} is invalid").into());
         }
 
         let backing_filename = if header.backing_file_offset != 0 {
